@@ -337,7 +337,13 @@ sqf::runtime::runtime::result sqf::runtime::runtime::execute(sqf::runtime::runti
             begin_run_if_empty();
             m_is_exit_requested = false;
             m_is_halt_requested = false;
-            auto scopeNum = m_context_active->frames_size() - 1;
+            // The context that is going to execute may not have been selected yet (nothing was started so far),
+            // and there may be no script at all: then there is no scope to leave.
+            auto scopeNum = m_contexts.empty() ? 0 : context_active().frames_size() - 1;
+            if (m_contexts.empty())
+            {
+                res = result::empty;
+            }
             m_state = state::running;
             while (!m_is_exit_requested && !m_is_halt_requested && !m_contexts.empty())
             {
@@ -556,9 +562,11 @@ sqf::runtime::runtime::result sqf::runtime::runtime::execute(sqf::runtime::runti
             std::optional<diagnostics::diag_info> dinf;
             while (!m_is_exit_requested && !m_is_halt_requested && !m_contexts.empty())
             {
-                if (!dinf.has_value())
+                // Select the executing context if none is active yet; it may have run out of frames already
+                auto& active = context_active();
+                if (!dinf.has_value() && !active.empty())
                 {
-                    auto next_inst = m_context_active->current_frame().peek(success);
+                    auto next_inst = active.current_frame().peek(success);
                     if (success)
                     {
                         dinf = { (*next_inst)->diag_info() };
@@ -571,9 +579,9 @@ sqf::runtime::runtime::result sqf::runtime::runtime::execute(sqf::runtime::runti
                 {
                     break;
                 }
-                if (dinf.has_value())
+                if (dinf.has_value() && !active.empty())
                 {
-                    auto next_inst = m_context_active->current_frame().peek(success);
+                    auto next_inst = active.current_frame().peek(success);
                     if (success && dinf.value() != (*next_inst)->diag_info())
                     {
                         break;
